@@ -69,6 +69,7 @@ type chanState struct {
 	WG, Loose             bool
 	NGlitch               int
 	WDead                 bool
+	WR                    bool
 }
 type chanFrame struct {
 	N, Len int
@@ -81,13 +82,13 @@ func decodeChanState(raw json.RawMessage) (chanState, error) {
 	if err := json.Unmarshal(raw, &a); err != nil {
 		return s, err
 	}
-	if len(a) != 20 {
+	if len(a) != 21 {
 		return s, fmt.Errorf("state has %d fields", len(a))
 	}
 	ints := []*int{&s.NSent, &s.WNonce, &s.RNonce, nil, nil, nil, &s.QLen, &s.QSeek, nil, &s.NDel, nil, &s.Under, &s.NFault, &s.ErrPos,
-		&s.StopPos, nil, nil, nil, &s.NGlitch, nil}
+		&s.StopPos, nil, nil, nil, &s.NGlitch, nil, nil}
 	bools := []*bool{nil, nil, nil, nil, &s.Closed, &s.QLive, nil, nil, &s.Broken, nil, &s.RdErr, nil, nil, nil,
-		nil, nil, &s.WG, &s.Loose, nil, &s.WDead}
+		nil, nil, &s.WG, &s.Loose, nil, &s.WDead, &s.WR}
 	for i := range a {
 		var err error
 		switch {
@@ -269,6 +270,10 @@ func (r *chanRun) run() {
 			if short {
 				wire.InjectShortWrite() // the connection takes a part of the next write and times out
 			}
+			refused := op.B("refused")
+			if refused {
+				wire.InjectRefuseWrite() // the connection refuses the next write whole: 0 bytes, an error, nothing on the wire
+			}
 			var n int
 			var werr error
 			Guard(fmt.Sprintf("Write(%d bytes)", K), func() { n, werr = sess.W.Write(r.led.Next(K)) })
@@ -276,6 +281,18 @@ func (r *chanRun) run() {
 			r.lastSent = minInt(K, sc.MaxPT) + sc.Tag
 			if r.l1(si, r.led.OnWrite(K, n, werr)) {
 				stop = true
+				break
+			}
+			if refused {
+				// Nothing of this Write is on the wire.  The caller goes on; the bytes of the writes that report
+				// success from here on arrive unmodified and in order, or the reader fails (an authenticated
+				// channel whose frame counter moved on cannot do better than fail): it never gets a wrong byte.
+				r.res.Case("write/refused")
+				if werr == nil || n != 0 {
+					r.mismatch(si, "L2:"+cfg.Layer+"-refused-write", fmt.Sprintf("the refusal of the connection was not reported as (0, error): Write(%d) = (%d, %v)", K, n, werr), "0, error", n)
+				}
+				r.led.MarkFault(r.led.Written)
+				r.shortWritten = true
 				break
 			}
 			if short {
@@ -289,7 +306,7 @@ func (r *chanRun) run() {
 				r.shortWritten = true
 				break
 			}
-			if n != K || werr != nil {
+			if (n != K || werr != nil) && !r.shortWritten {
 				r.mismatch(si, "L2:"+cfg.Layer+"-write-result", fmt.Sprintf("Write(%d) = (%d, %v) on a healthy connection", K, n, werr), K, n)
 			}
 			r.res.Case(fmt.Sprintf("write/%d/%d", k/r.mPT, k%r.mPT))
